@@ -58,6 +58,7 @@ var translationUnits = []tunit{
 		{"internal/authz/oidc.go", "oidcHandler.encodeTokensToHeaders"},
 		{"internal/authz/oidc.go", "isValidIDPNewTokensResponse"},
 		{"internal/authz/oidc.go", "isValidIDPRefreshTokenResponse"},
+		{"internal/authz/oidc.go", "oidcHandler.areRequiredTokensExpired"},
 	}, consts: []string{"internal/authz/oidc.go"}},
 }
 
@@ -534,6 +535,8 @@ func (c *tctx) call(x *ast.CallExpr) string {
 		// the collaborators handed over (pool, key provider, store factory, clock, generator) are the filter's own, fixed at
 		// construction (F8): what varies from call to call is the configuration
 		return "(handlers.newOIDC " + c.expr(x.Args[0]) + ")"
+	case "fmt.Errorf", "errors.New":
+		return "({ isNil := false } : Go.Error)"
 	case "codes.Code", "int32":
 		return c.expr(x.Args[0])
 	case "deny":
@@ -583,6 +586,18 @@ func (c *tctx) call(x *ast.CallExpr) string {
 				return "(← " + lname(f.Sel.Name) + " env " + c.args(x.Args) + ")"
 			}
 			fail(x, "call of %s, which is neither translated nor a modelled library function", name)
+		}
+		// methods modelled through the oracle environment
+		if f.Sel.Name == "ParseIDToken" && len(x.Args) == 0 {
+			return "(← Pb.parseIDToken env " + c.expr(f.X) + ")"
+		}
+		if f.Sel.Name == "Now" && len(x.Args) == 0 {
+			if inner, ok := f.X.(*ast.SelectorExpr); ok && inner.Sel.Name == "clock" {
+				return "(← Pb.clockNow env " + c.expr(inner.X) + ")"
+			}
+		}
+		if f.Sel.Name == "Before" && len(x.Args) == 1 {
+			return "(Go.Time.before " + c.expr(f.X) + " " + c.expr(x.Args[0]) + ")"
 		}
 		// protobuf getter: nil-safe, pure
 		if strings.HasPrefix(f.Sel.Name, "Get") && len(x.Args) == 0 {
